@@ -284,7 +284,7 @@ func c20Generated(c *fw.Ctx) {
 	if c.Case == 0 {
 		c.Sample(map[string]any{"grammar": gs[0].c.Pkg.Text, "input": meta[0].text})
 	}
-	res, err := genrun.Run(bin, c.WorkDir, jobs, 120)
+	res, err := genrun.Run(bin, c.WorkDir, jobs, 300)
 	if err != nil {
 		c.Violate("harness/runner/"+fw.Skeleton(err.Error()), err.Error(), nil)
 		return
